@@ -312,7 +312,11 @@ func (c *fxCtx) stmts(list []ast.Stmt, k string) string {
 		}
 		return wrapActs(acts, kk)
 	case *ast.IncDecStmt:
-		return wrapActs(c.acts(x.X), kk)
+		op := "inc "
+		if x.Tok == token.DEC {
+			op = "dec "
+		}
+		return wrapActs(append(c.acts(x.X), ".call "+fxStr(op+exprString(x.X))), kk)
 	case *ast.DeclStmt:
 		var acts []string
 		if gd, ok := x.Decl.(*ast.GenDecl); ok {
@@ -428,6 +432,10 @@ func (c *fxCtx) stmts(list []ast.Stmt, k string) string {
 				if br, ok := b.(*ast.BranchStmt); ok && br.Tok == token.FALLTHROUGH {
 					c.bad = "fallthrough"
 				}
+			}
+			if what == "type switch" {
+				// the arm taken is part of the trace (a marker act): which packet kinds lead where
+				head = append(head, ".call "+fxStr("@"+label))
 			}
 			arm := fxStr(what+": "+label) + "\x00" + wrapActs(head, c.stmts(body, kn))
 			if label == "default" {
